@@ -79,6 +79,7 @@ class Scheduler:
     self.events = []            # optional decision log
     self.marks = {}             # free-form counters for checks (e.g. interesting switches)
     self.on_switch = None       # optional callback(prev_vt, next_vt)
+    self.atomic = 0             # >0: no pre-emption (inside a primitive's critical section)
 
   # ------------------------------------------------------------------ running
   def run(self, body):
@@ -217,6 +218,8 @@ class Scheduler:
 
   def point(self):
     """Pre-emption point reached by the current thread."""
+    if self.atomic:
+      return          # inside a virtual primitive's critical section (real ones hold a mutex)
     if self.aborting:
       if self.current is not self.body:
         raise Abort()
@@ -515,7 +518,11 @@ class _VQueueShell:
           raise ValueError("'timeout' must be a non-negative number")
         if not s.block(lambda: self._qsize() < self.maxsize, timeout, what="Queue.put(full)"):
           raise _queue.Full
-    self._put(item)
+    s.atomic += 1
+    try:
+      self._put(item)           # may call back into traced code (__lt__ of heap items)
+    finally:
+      s.atomic -= 1
     self.unfinished_tasks += 1
 
   def get(self, block=True, timeout=None):
@@ -529,7 +536,11 @@ class _VQueueShell:
         raise ValueError("'timeout' must be a non-negative number")
       if not s.block(lambda: self._qsize() > 0, timeout, what="Queue.get(empty)"):
         raise _queue.Empty
-    return self._get()
+    s.atomic += 1
+    try:
+      return self._get()
+    finally:
+      s.atomic -= 1
 
   def put_nowait(self, item):
     return self.put(item, block=False)
